@@ -30,7 +30,16 @@ RULE = ("every mask of every shape with H*W <= 4 (quick) / <= 6 (thorough) x {ma
         "chi_squared_with_noise_covariance_from.  INTERFEROMETER: FitInterferometer on real Interferometer datasets of 1-6 "
         "visibilities (both use_mask_in_fit settings, with / without inversion), read, in-place edits, re-read, second fit object; "
         "the complex fit_util functions on ndarrays.  Inversions with a Preloads object carrying the true regularization matrix / "
-        "log-determinant. "
+        "log-determinant.  PHASE 4: input KINDS (int64 / int32 / int8 / bool / float32 / list-built data, noise, model arrays; plain "
+        "ndarray model data; Visibilities from float pairs / lists / complex64); subclasses three / four levels deep; every DEFAULT "
+        "ARGUMENT object of the constructors and the caller's settings / preloads / DatasetModel objects fingerprinted around each "
+        "case; DatasetModel histories (the fit's own default object edited, a DatasetModel shared by two fits); inversions built with "
+        "the constructor's own default settings / preloads; a direct AbstractFit subclass; constructed rare states (negative pivots in "
+        "the sparse LU factorisation, objects with 0 / 3 parameters); util functions called a second time on the same arguments after "
+        "in-place edits; production inversions (aa.Inversion -> InversionImagingMapping / InversionImagingWTilde, mapping-matrix "
+        "mappers or a real MapperRectangular, PSF, two inversions on one Preloads object with / without a preloaded curvature matrix, "
+        "the fit on top) compared within 1e-9 on snapshots of F and s; a persistent canary fit / inversion re-evaluated after every "
+        "case with in-place edits toggled (state remembered across evaluations or left behind in shared objects). "
         "A case is non-trivial unless it is a bare composition call; distinct = distinct JSON input.")
 EXHAUSTIVE = {
     "quick": "all masks of all shapes with H*W <= 4 x 2 modes x 2 sky settings x inversion kinds (4 kinds for H*W <= 3; none / "
@@ -1490,7 +1499,41 @@ def run_utilcov(inp):
     return {"coq": coq, "out": chi, "py_ok": unchanged, "nontrivial": True, "kind": "utilcov",
             "detail": None if unchanged else "a fit_util function modified one of its arguments in place"}
 
-_COUNTS = {"impl_exceptions": 0, "loud_refusals": 0}
+# ---- the canary: ONE persistent tiny fit (same dataset, arrays, fit object for the whole run) and one persistent pair of linear
+# objects, evaluated before and after every case with the user's in-place edits toggled in between.  Whatever a case (or the code)
+# leaves behind in a module-level / default-argument / class-level object, or remembers about an argument by identity or shape,
+# makes the canary deviate from its closed-form values; because the toggle happens inside run_case, the replay of ANY single case
+# reproduces such a failure on its own.
+_CANARY = {}
+CANARY_STATES = [{"data": [3.0, 1.0], "noise": [1.0, 2.0], "model": [1.0, 1.5], "H": 2.0, "s": 3.0},
+                 {"data": [5.0, -1.0], "noise": [4.0, 0.25], "model": [0.5, 1.0], "H": 8.0, "s": -1.0}]
+def canary_check():
+    c = classes(); aa = c["aa"]
+    K = _CANARY
+    if not K:
+        mask = aa.Mask2D(mask=np.array([[False, False]]), pixel_scales=1.0)
+        K["data"], K["noise"], K["model"] = (aa.Array2D(values=np.array(CANARY_STATES[0][k]), mask=mask) for k in ("data", "noise", "model"))
+        K["ds"] = aa.Imaging(data=K["data"], noise_map=K["noise"])
+        K["fit"] = c["HFitImaging"](K["ds"], K["model"])                   # built WITHOUT a DatasetModel
+        K["reg"] = c["HReg"]([[CANARY_STATES[0]["H"]]], 1); K["obj"] = c["HObj"](1, K["reg"]); K["free"] = c["HObj"](1, None)
+        K["k"] = 0
+    K["k"] = 1 - K["k"]; st = CANARY_STATES[K["k"]]
+    for k in ("data", "noise", "model"):
+        for i, v in enumerate(st[k]): K[k][i] = v                          # the user's in-place edits
+    K["reg"]._matrix[0, 0] = st["H"]
+    inv = c["HInv"]([K["free"], K["obj"]], [[1.0, 0.0], [0.0, 1.0]], [7.0, st["s"]])    # the constructor's own defaults
+    fit2 = c["HFitImaging"](K["ds"], K["model"], inversion=inv)
+    r = [(d - m) / n for d, m, n in zip(st["data"], st["model"], st["noise"])]
+    chi = sum(x * x for x in r); nn = sum(math.log(2 * math.pi * n * n) for n in st["noise"])
+    reg = st["s"] * st["H"] * st["s"]; ldc = math.log(1.0 + st["H"]); ldr = math.log(st["H"])
+    want = {"chi_squared": chi, "noise_normalization": nn, "log_likelihood": -0.5 * (chi + nn), "figure_of_merit": -0.5 * (chi + nn)}
+    bad = [f"{k} = {float(getattr(K['fit'], k))!r}, definition {w!r}" for k, w in want.items() if not rel_close(float(getattr(K["fit"], k)), w)]
+    want2 = {"log_evidence": -0.5 * (chi + reg + ldc - ldr + nn), "figure_of_merit": -0.5 * (chi + reg + ldc - ldr + nn),
+             "log_likelihood_with_regularization": -0.5 * (chi + reg + nn)}
+    bad += [f"{k} = {float(getattr(fit2, k))!r}, definition {w!r}" for k, w in want2.items() if not rel_close(float(getattr(fit2, k)), w)]
+    return bad
+
+_COUNTS = {"impl_exceptions": 0, "loud_refusals": 0, "canary_evaluations": 0}
 def run_case(inp):
     op = inp["op"]
     f = {"fit": run_fit, "inv": run_inv, "util": run_util, "compose": run_compose, "hist": run_hist, "invhist": run_invhist,
@@ -1499,8 +1542,15 @@ def run_case(inp):
     try:
         if op == "vis": vis_classes()
         d0 = defaults_fp()
+        c0 = canary_check() if not _CANARY else []          # the first case of a process evaluates both states
         r = f(inp)
+        c1 = canary_check(); _COUNTS["canary_evaluations"] += 1
         d1 = defaults_fp()
+        if c0 or c1:
+            r["py_ok"] = False
+            r["detail"] = ((r.get("detail") or "") + "; the persistent canary fit (a fixed two-pixel fit and inversion, edited in place and "
+                           "re-evaluated " + ("before" if c0 else "after") + " this case) no longer follows its definition -- state remembered "
+                           "across evaluations or left behind in a shared object: " + "; ".join(c0 or c1)).lstrip("; ")
         if d0 != d1:
             names = sorted({n for n, f in d0 if (n, f) not in d1} | {n for n, f in d1 if (n, f) not in d0})
             r["py_ok"] = False
